@@ -32,43 +32,95 @@ def call_blocks(b, pred):
     return [(bb, t) for bb, t in b.calls() if pred(strip_generics(t.callee.path or ""), t)]
 
 
+SPAWN = ("tokio::spawn", "tokio::task::spawn", "tokio::task::spawn::spawn")
+
+
+def accept_paths(ctx):
+    """paths of MemcacheTcpServer::run through one round of the accept loop, with every in-crate helper (sync or async)
+    inlined — so the rules do not depend on how the loop body is divided into functions. Client::new / Client::handle stay
+    opaque (events). Returns [(path, events of the round after `accept`)]"""
+    if "c17.accept_paths" not in ctx._cache:
+        f = ctx.facts
+        b = f.one(RUN)
+
+        def pol(body, a):
+            if body.path == CLIENT + "::new" or body.path.startswith(CLIENT + "::handle"):
+                return "opaque"
+            return "inline"
+
+        I = Interp(f, loop_bound=1, policy=pol)
+        out = []
+        for p in I.run(b, [P("self")]):
+            evs = [e for e in p.events if e.kind == "call"]
+            acc = [k for k, e in enumerate(evs) if e.name == "tokio::net::TcpListener::accept"]
+            if not acc:
+                continue
+            rnd = evs[acc[0] + 1 : (acc[1] if len(acc) > 1 else None)]
+            out.append((p, rnd))
+        ctx._cache["c17.accept_paths"] = (b, out)
+    return ctx._cache["c17.accept_paths"]
+
+
+def _is(e, *names):
+    return any(e.name == n or e.name.endswith(n) for n in names)
+
+
 def r1(ctx):
     rep = Report("C17.R1", "accept loop: one acquire -> forget before every spawn; Client gets a clone of the acquired semaphore; spawned task owns the Client and runs handle", floor=6)
-    f = ctx.facts
-    b = f.one(RUN)
+    b, rounds = accept_paths(ctx)
     rep.analysed(b)
-    acq = call_blocks(b, lambda n, t: n == SEM + "acquire" or n == SEM + "acquire_owned")
-    fg = call_blocks(b, lambda n, t: n.endswith("SemaphorePermit::forget") or n.endswith("OwnedSemaphorePermit::forget"))
-    sp = call_blocks(b, lambda n, t: n in ("tokio::spawn", "tokio::task::spawn", "tokio::task::spawn::spawn"))
-    cn = call_blocks(b, lambda n, t: n == CLIENT + "::new")
-    rep.check(len(acq) == 1 and len(fg) == 1 and len(sp) == 1 and len(cn) == 1, "sites", "one acquire, one forget, one spawn, one Client::new in the accept loop", "accept loop has %d acquire / %d forget / %d spawn / %d Client::new call sites (one each confirmed)" % (len(acq), len(fg), len(sp), len(cn)), b.loc())
-    if not (len(acq) == 1 and len(fg) == 1 and len(sp) == 1 and len(cn) == 1):
-        return rep
-    a, g, s, c = acq[0][0], fg[0][0], sp[0][0], cn[0][0]
-    rep.check(b.dominates(a, g) and b.dominates(g, s), "order:acquire<forget<spawn", "acquire dominates forget dominates spawn", "a client task can be spawned without a permit having been taken and kept (acquire/forget do not dominate the spawn): more than connection-limit connections are served", loc_s(sp[0][1].span))
-    rep.check(b.dominates(c, s), "order:Client::new<spawn", "the Client is built before the spawn", "spawn is reachable without Client::new", loc_s(sp[0][1].span))
-    # the permit that is forgotten is the one acquired: forget's receiver derives from the acquire future's result
-    ft = fg[0][1]
-    rep.check(chase_calls(b, ft.args[0], lambda n: n == SEM + "acquire" or n == SEM + "acquire_owned"), "forget-of-acquired-permit", "forget() consumes the permit returned by acquire", "the permit that is forgotten is not the one that was acquired", loc_s(ft.span))
-    # same semaphore: acquire on self.limit_connections; Client::new arg 4 <- clone of self.limit_connections
-    at = acq[0][1]
-    rep.check(chase_mentions(b, at.args[0], ("limit_connections",)), "acquire-on-server-semaphore", "acquire on self.limit_connections", "acquire is not called on the server's limit_connections semaphore", loc_s(at.span))
-    ct = cn[0][1]
-    rep.check(len(ct.args) == 5 and chase_mentions(b, ct.args[4], ("limit_connections",)) and chase_calls(b, ct.args[4], lambda n: n.endswith("Clone::clone")), "client-gets-same-semaphore", "Client::new(.., Arc::clone(&self.limit_connections))", "the Client is not given a clone of the semaphore that is acquired: its Drop returns permits to another semaphore", loc_s(ct.span))
-    # spawned future owns the client and calls handle
-    st = sp[0][1]
-    fut_defs = closure_defs(b, st.args[0])
-    ok = False
-    for d in fut_defs:
-        fb = f.bodies.get(d)
-        if fb is None:
+    rep.evaluations += len(rounds)
+    n_spawn = 0
+    for p, evs in rounds:
+        acq = [k for k, e in enumerate(evs) if _is(e, SEM + "acquire", SEM + "acquire_owned")]
+        fg = [k for k, e in enumerate(evs) if _is(e, "SemaphorePermit::forget", "OwnedSemaphorePermit::forget")]
+        sp = [k for k, e in enumerate(evs) if e.name in SPAWN]
+        cn = [k for k, e in enumerate(evs) if e.name == CLIENT + "::new"]
+        if not sp:
+            # a permit taken and kept on a round that serves nobody would shrink the limit for good
+            ended = not p.cut and p.ret is not None
+            rep.check(not (acq and fg) or ended, "permit-kept-without-task", "no permit is kept on a round that spawns no task", "a round of the accept loop takes and keeps a permit (acquire + forget) but spawns no client task: that slot is never returned", b.loc())
             continue
-        caps = [c_["name"] for c_ in fb.captures]
-        by = [c_["by"] for c_ in fb.captures]
-        calls_handle = any(strip_generics(t.callee.path or "") == CLIENT + "::handle" for _bb, t in fb.calls())
-        ok = "client" in caps and all("ByValue" in x for x in by) and calls_handle
-    rep.check(ok, "spawned-task-owns-client", "spawn(async move { client.handle().await })", "the spawned task does not own the Client by value / does not run Client::handle: the permit is not tied to the task's lifetime", loc_s(st.span))
-    # acquire happens on every loop iteration that spawns: both inside the same loop body (no spawn outside)
+        n_spawn += 1
+        ok_sites = len(acq) == 1 and len(fg) == 1 and len(sp) == 1 and len(cn) == 1
+        rep.check(ok_sites, "sites", "one acquire, one forget, one spawn, one Client::new per accepted connection", "a round of the accept loop performs %d acquire / %d forget / %d spawn / %d Client::new (one each per accepted connection)" % (len(acq), len(fg), len(sp), len(cn)), b.loc())
+        if not ok_sites:
+            # still name the most telling defect
+            if sp and (not acq or not fg or min(acq + [10**6]) > sp[0] or min(fg + [10**6]) > sp[0]):
+                rep.bad("order:acquire<forget<spawn", "a client task can be spawned without a permit having been taken and kept (no acquire + forget before the spawn): more than connection-limit connections are served", loc_s(evs[sp[0]].span))
+            continue
+        a, g, s_, c = acq[0], fg[0], sp[0], cn[0]
+        A, G, S, C = evs[a], evs[g], evs[s_], evs[c]
+        rep.check(a < g < s_, "order:acquire<forget<spawn", "acquire, then forget, then spawn", "a client task can be spawned without a permit having been taken and kept (acquire/forget do not precede the spawn): more than connection-limit connections are served", loc_s(S.span))
+        rep.check(c < s_, "order:Client::new<spawn", "the Client is built before the spawn", "spawn happens without a Client built in this round", loc_s(S.span))
+        rep.check(A.result in atoms(G.args[0]), "forget-of-acquired-permit", "forget() consumes the permit returned by acquire", "the permit that is forgotten (%s) is not the one that was acquired" % short(G.args[0], 60), loc_s(G.span))
+        def base(t):
+            t = tform(t)
+            while isinstance(t, tuple) and t and t[0] in ("deref", "ref"):
+                t = t[1]
+            return t
+
+        def is_server_sem(t):
+            t = base(t)
+            if not (isinstance(t, tuple) and t[0] == "field" and t[2] == "limit_connections"):
+                return False
+            r = t[1]
+            while isinstance(r, tuple) and r and r[0] in ("field", "deref", "ref"):
+                r = r[1]
+            return r == P("self")
+
+        rep.check(is_server_sem(A.args[0]), "acquire-on-server-semaphore", "acquire on self.limit_connections", "acquire is called on %s, not on the server's limit_connections semaphore" % short(A.args[0], 60), loc_s(A.span))
+        sem_arg = C.args[4] if len(C.args) == 5 else None
+        # Arc::clone is the identity on the pointee: the Client must hold the very semaphore that is acquired
+        same = sem_arg is not None and is_server_sem(sem_arg) and base(sem_arg) == base(A.args[0])
+        rep.check(same, "client-gets-same-semaphore", "Client::new(.., Arc::clone(&self.limit_connections))", "the Client is given %s, not a clone of the semaphore that is acquired (%s): its Drop returns permits to another semaphore" % (short(sem_arg, 60), short(A.args[0], 60)), loc_s(C.span))
+        # the spawned future owns that Client and runs handle on it
+        H = [e for e in evs[s_ + 1 :] if e.name.startswith(CLIENT + "::handle")]
+        fut = S.args[0] if S.args else None
+        owns = any(C.result in atoms(v) for v in fut.caps) if isinstance(fut, ClosureV) else C.result in atoms(fut)
+        runs = bool(H) and C.result in atoms(H[0].args[0])
+        rep.check(owns and runs, "spawned-task-owns-client", "spawn(async move { client.handle().await })", "the spawned task does not own the Client built for this connection / does not run Client::handle on it: the permit is not tied to the task's lifetime", loc_s(S.span))
+    rep.check(n_spawn > 0, "sites", "a round that spawns a client task exists", "accept loop has 0 rounds that reach tokio::spawn (cannot locate acquire / forget / spawn / Client::new)", b.loc())
     return rep
 
 
@@ -128,10 +180,13 @@ def r2(ctx):
     # census
     cg = callgraph.get(ctx)
     sites = cg.callers_of(lambda c: c.path and (c.path.startswith(SEM) or "SemaphorePermit::" in c.path) and c.name in ("add_permits", "forget", "close", "forget_permits", "acquire", "acquire_owned", "try_acquire", "acquire_many"))
-    allowed = {("add_permits", "<" + CLIENT + " as std::ops::Drop>::drop"), ("forget", RUN), ("acquire", RUN)}
+    # the accept side = whatever run() reaches (its helpers, sync or async), minus what the connection task runs
+    handle_side = cg.reachable([x for x in f.bodies if x.startswith(CLIENT + "::handle")])
+    accept_side = cg.reachable([RUN]) - handle_side - {"<" + CLIENT + " as std::ops::Drop>::drop"}
+    allowed = {("add_permits", "<" + CLIENT + " as std::ops::Drop>::drop")}
     for bp, bb, t in sites:
         k = (t.callee.name, bp)
-        rep.check(k in allowed, "permit-op:%s@%s" % k, "%s in %s" % k, "Semaphore::%s is called in %s: permits are taken/returned outside the accept loop / Client::drop pairing" % k, loc_s(t.span))
+        rep.check(k in allowed or (t.callee.name in ("forget", "acquire") and bp in accept_side), "permit-op:%s@%s" % k, "%s in %s" % k, "Semaphore::%s is called in %s: permits are taken/returned outside the accept loop / Client::drop pairing" % k, loc_s(t.span))
     # Client is not Clone / Copy
     for i in f.impls:
         if i["self"] == CLIENT and i.get("trait") in ("std::clone::Clone", "std::marker::Copy"):
@@ -157,29 +212,25 @@ def r2(ctx):
 def r3(ctx):
     rep = Report("C17.R3", "no normal exit between Client::new and the forget of its permit", floor=1)
     f = ctx.facts
-    b = f.one(RUN)
-    cn = call_blocks(b, lambda n, t: n == CLIENT + "::new")
-    fg = call_blocks(b, lambda n, t: n.endswith("SemaphorePermit::forget"))
-    if len(cn) != 1 or len(fg) != 1:
-        rep.bad("sites", "cannot locate Client::new / forget in the accept loop", b.loc())
-        return rep
-    start = cn[0][1].t
-    stop = fg[0][0]
-    region = b.reach_from(start, stop=(stop,))
-    exits = []
-    loop_heads = set(h for _t, h in b.has_cycle())
-    for x in region:
-        t = b.blocks[x].term
-        if t.k == "return":
-            exits.append(("return", x, t))
-        for s in b.succs(x):
-            # leaving through the back edge of the accept loop = giving up on this connection
-            if s in loop_heads and not b.dominates(start, s) and s not in region:
-                exits.append(("continue", x, t))
-    # the await loop of acquire is inside the region and is fine (its head is dominated by `start`)
-    rep.check(not exits, "no-exit-between-new-and-forget", "every normal path from Client::new reaches forget()", "a Client can be dropped (returning a permit) on a path where no permit was taken: %s — the limit grows by one each time" % [(k, loc_s(t.span)) for k, _x, t in exits][:3], loc_s(cn[0][1].span))
+    b, rounds = accept_paths(ctx)
+    rep.analysed(b)
+    n = 0
+    bad = []
+    for p, evs in rounds:
+        cn = [k for k, e in enumerate(evs) if e.name == CLIENT + "::new"]
+        for c in cn:
+            n += 1
+            later = evs[c + 1 :]
+            kept = any(_is(e, "SemaphorePermit::forget", "OwnedSemaphorePermit::forget") for e in later)
+            if not kept:
+                # the round ends (return, `?`, continue) with a Client alive and no permit taken for it
+                how = "return %s" % short(p.ret, 50) if (not p.cut and p.ret is not None) else "next round of the loop"
+                bad.append((how, evs[c]))
+    rep.check(n > 0, "sites", "Client::new located in the accept loop (%d paths)" % n, "cannot locate Client::new / forget in the accept loop", b.loc())
+    rep.check(not bad, "no-exit-between-new-and-forget", "every normal path from Client::new reaches forget()", "a Client can be dropped (returning a permit) on a path where no permit was taken: %s — the limit grows by one each time" % sorted(set(h for h, _e in bad))[:3], loc_s(bad[0][1].span) if bad else b.loc())
     # advisory: the two `?` before Client::new end the accept loop on a per-connection error
-    q = [t for bb, t in b.calls() if strip_generics(t.callee.path or "") in ("tokio::net::TcpStream::set_nodelay", "tokio::net::TcpStream::set_linger")]
+    rb = f.one(RUN)
+    q = [t for bb, t in rb.calls() if strip_generics(t.callee.path or "") in ("tokio::net::TcpStream::set_nodelay", "tokio::net::TcpStream::set_linger")]
     if q:
         rep.advise("set_nodelay/set_linger errors are propagated with `?` out of the accept loop: one failing socket option would stop the listener (not alarmed: not reproducible on Linux, and not a permit-accounting issue)")
     return rep
